@@ -10,6 +10,7 @@ import (
 	"sync"
 	"time"
 
+	"github.com/dgraph-io/badger/v4/vhook"
 	"github.com/dgraph-io/badger/v4/y"
 	"github.com/dgraph-io/ristretto/v2/z"
 )
@@ -101,6 +102,8 @@ func (op *MergeOperator) compact() error {
 	} else if err != nil {
 		return err
 	}
+	vhook.Event("merge.writeback", version, 0)
+	vhook.Point("merge.beforeWriteback")
 	entries := []*Entry{
 		{
 			Key:   y.KeyWithTs(op.key, version),
@@ -127,6 +130,7 @@ func (op *MergeOperator) runCompactions(dur time.Duration) {
 			stop = true
 		case <-ticker.C: // wait for tick
 		}
+		vhook.Point("merge.tick")
 		if err := op.compact(); err != nil {
 			op.db.opt.Errorf("failure while running merge operation: %s", err)
 		}
@@ -150,6 +154,13 @@ func (op *MergeOperator) Add(val []byte) error {
 //
 // If Add has not been called even once, Get will return ErrKeyNotFound.
 func (op *MergeOperator) Get() ([]byte, error) {
+	vhook.WaitLock("merge.get", func() bool {
+		if op.TryRLock() {
+			op.RUnlock()
+			return true
+		}
+		return false
+	})
 	op.RLock()
 	defer op.RUnlock()
 	var existing []byte
